@@ -56,7 +56,7 @@ static bool gen_c05(uint64_t seed, const std::string &tier, uint64_t i, Plan &p)
 
 // ---------------------------------------------------------------------------------------------- C08
 static std::string c08_addr(Rng &r, bool rcpt) {
-  static const std::vector<std::string> doms = {"l.example", "L.Example", "sub.l.example", "deep.sub.l.example", "more.example", "x.more.example", "More.Example", "X.MORE.example", "evil.example", "lexample", "l.example.evil.example", "[127.0.0.1]", "[10.0.0.7]", "[10.0.0.8]", "[127.0.0.1", "example", "zone-9.example", "ZONE-9.Example", "azone-9.example", "x.zz.example", "X.Zz.EXAMPLE"};
+  static const std::vector<std::string> doms = {"l.example", "L.Example", "sub.l.example", "deep.sub.l.example", "more.example", "x.more.example", "More.Example", "X.MORE.example", "evil.example", "lexample", "l.example.evil.example", "[127.0.0.1]", "[10.0.0.7]", "[10.0.0.8]", "[127.0.0.1", "example", "zone-9.example", "ZONE-9.Example", "azone-9.example", "x.zz.example", "X.Zz.EXAMPLE", "caf\xe9.example", "x.\xff\x80.example"};
   std::string box = r.pick(std::vector<std::string>{"u", "User.Name", "\"quoted box\"", "back\\@slash", "\"a\\\"b\"", "bad", "u%x", ""});
   int form = (int)r.below(12); std::string a;
   std::string d = r.pick(doms);
@@ -79,8 +79,8 @@ static bool gen_c08(uint64_t seed, const std::string &tier, uint64_t i, Plan &p)
   p.knobs.set("oracles", oracle_list({"c08"}));
   Json ctl = Json::obj();
   int rc = (int)r.below(5);
-  if (rc != 0) { Json a = Json::arr(); a.push("l.example"); if (r.chance(0.5)) a.push(".l.example"); if (r.chance(0.3)) a.push("Example"); if (r.chance(0.3)) a.push("sim.example"); if (r.chance(0.4)) a.push(r.chance(0.5) ? "zone-9.example" : "Zone-9.EXAMPLE"); ctl.set("rcpthosts", a); }
-  if (rc >= 3) { Json a = Json::arr(); a.push("more.example"); if (r.chance(0.5)) a.push(".more.example"); if (r.chance(0.4)) a.push(r.chance(0.5) ? ".zz.example" : ".ZZ.example"); ctl.set("morercpthosts", a); }
+  if (rc != 0) { Json a = Json::arr(); a.push("l.example"); if (r.chance(0.5)) a.push(".l.example"); if (r.chance(0.3)) a.push("Example"); if (r.chance(0.3)) a.push("sim.example"); if (r.chance(0.4)) a.push(r.chance(0.5) ? "zone-9.example" : "Zone-9.EXAMPLE"); if (r.chance(0.3)) a.push("caf\xe9.example"); ctl.set("rcpthosts", a); }
+  if (rc >= 3) { Json a = Json::arr(); a.push("more.example"); if (r.chance(0.5)) a.push(".more.example"); if (r.chance(0.4)) a.push(r.chance(0.5) ? ".zz.example" : ".ZZ.example"); if (r.chance(0.3)) a.push(".\xff\x80.example"); ctl.set("morercpthosts", a); }
   if (r.chance(0.5)) { Json a = Json::arr(); a.push("bad@sender.example"); a.push("@bad.example"); if (r.chance(0.3)) a.push("Zed@zone-9.example"); ctl.set("badmailfrom", a); }
   if (r.chance(0.3)) ctl.set("localiphost", r.pick(std::vector<std::string>{"l.example", "other.example"}));
   p.knobs.set("control", ctl);
